@@ -354,7 +354,8 @@ def r4_pawn_geometry(ctx):
     # ---- en passant
     name = MGM + 'generate_en_passant_moves'
     for col in ('White', 'Black'):
-        outs = Engine(facts).run(name, args=[None, None, COLORS[col]])
+        # unroll: a loop over the literal pair [(west attacks, origin), (east attacks, origin)] is walked element by element
+        outs = Engine(facts, unroll=True).run(name, args=[None, None, COLORS[col]])
         ctx.touch(name)
         rets = [o for o in outs if o.kind == 'return']
         # leaves
